@@ -31,7 +31,8 @@ REQUIRED_THEOREMS = ['CfVerif.C14.' + t for t in (
     'deck_info_parse', 'deck_flags', 'deck_info_version_rejected',
     'loco_parse', 'loco2_id_list', 'loco2_active_id_list', 'loco2_anchor_data', 'poly4d_layout', 'ledtiming_image', 'ledtiming_layout',
     'i2c_update_history_free', 'i2c_update_all_histories', 'i2c_update_is_single_shot', 'i2c_reupdate_valid_iff_checksum',
-    'i2c_pending_blocks_and_disconnect_clears', 'ow_update_history_free', 'ow_update_all_histories', 'ow_reupdate_is_single_shot',
+    'i2c_pending_blocks_and_disconnect_clears', 'i2c_update_ok_completes', 'i2c_update_always_completes', 'i2c_invalid_then_rewrite_then_update',
+    'ow_update_ok_completes', 'ow_update_history_free', 'ow_update_all_histories', 'ow_reupdate_is_single_shot',
     'ow_stale_elements_counterexample',
     'lh_file_roundtrip', 'lh_file_roundtrip_mem', 'param_file_roundtrip', 'lh_file_rejects', 'param_file_rejects')]
 TRUSTED = ['harness/corr/c14.py extractor + correspondence (fake mem_handler: a byte array; requests served in order after the caller returned)',
@@ -727,6 +728,12 @@ def stmts(fn):
                 if n.orelse:
                     out.append('else:')
                     go(n.orelse)
+            elif isinstance(n, ast.Try):
+                out.append('try:')
+                go(n.body)
+                for hd in n.handlers:
+                    out.append('except %s:' % (ast.unparse(hd.type) if hd.type else ''))
+                    go(hd.body)
     go(fn.body)
     return out
 
@@ -766,6 +773,51 @@ def extract_helper(g):
     g.strings('lhCfgNextCalls', [ast.unparse(c) for c in sorted((m for m in ast.walk(nx) if isinstance(m, ast.Call) and 'self._helper' in ast.unparse(m.func)), key=lambda m: m.lineno)])
 
 
+def cb_sites(fn, attr):
+    """where `self.<attr>(...)` is called and where `self.<attr> = None` is assigned inside fn, each labelled by the chain of the
+    enclosing `if` tests (`/else` for the else branch): (call labels, clear labels), in source order"""
+    calls_, clears = [], []
+
+    def go(body, label):
+        for n in body:
+            if isinstance(n, ast.If):
+                t = ast.unparse(n.test)
+                go(n.body, label + [t])
+                go(n.orelse, label + [t + '/else'])
+            elif isinstance(n, ast.Expr) and isinstance(n.value, ast.Call) and ast.unparse(n.value.func) == 'self.' + attr:
+                calls_.append(' > '.join(label))
+            elif isinstance(n, ast.Assign) and ast.unparse(n.targets[0]) == 'self.' + attr and ast.unparse(n.value) == 'None':
+                clears.append(' > '.join(label))
+    go(fn.body, [])
+    return calls_, clears
+
+
+def extract_lifecycle(g):
+    """every path of a reply handler that reports a result also clears the pending record"""
+    i2c = X.find(X.parse('cflib/crazyflie/mem/i2c_element.py'), 'I2CElement')
+    c, k = cb_sites(X.find(i2c, 'new_data'), '_update_finished_cb')
+    g.strings('i2cCbCalls', c)
+    g.strings('i2cCbClears', k)
+    ow = X.find(X.parse('cflib/crazyflie/mem/ow_element.py'), 'OWElement')
+    c, k = cb_sites(X.find(ow, 'new_data'), '_update_finished_cb')
+    g.strings('owCbCalls', c)
+    g.strings('owCbClears', k)
+    loco = X.find(X.parse('cflib/crazyflie/mem/loco_memory.py'), 'LocoMemory')
+    c, k = cb_sites(X.find(loco, 'new_data'), '_update_finished_cb')
+    g.strings('locoCbCalls', c)
+    g.strings('locoCbClears', k)
+    l2 = X.find(X.parse('cflib/crazyflie/mem/loco_memory_2.py'), 'LocoMemory2')
+    for fn, attr, nm in (('_handle_id_list_data', '_update_ids_finished_cb', 'loco2Ids'), ('_handle_active_id_list_data', '_update_active_ids_finished_cb', 'loco2Active'),
+                         ('_handle_anchor_data', '_update_data_finished_cb', 'loco2Data')):
+        c, k = cb_sites(X.find(l2, fn), attr)
+        g.strings(nm + 'CbCalls', c)
+        g.strings(nm + 'CbClears', k)
+    dm = X.find(X.parse('cflib/crazyflie/mem/deck_memory.py'), 'DeckMemoryManager')
+    g.strings('deckNewDataStmts', [x for x in stmts(X.find(dm, '_new_data')) if not x.startswith('logger.')])
+    g.strings('deckNewDataFailedStmts', [x for x in stmts(X.find(dm, '_new_data_failed')) if not x.startswith('logger.')])
+    g.strings('deckClearQuery', stmts(X.find(dm, '_clear_query_cb')))
+
+
 def extract(ctx):
     g = X.GenFile(PID, ['cflib/crazyflie/mem/i2c_element.py', 'cflib/crazyflie/mem/ow_element.py', 'cflib/crazyflie/mem/lighthouse_memory.py',
                           'cflib/crazyflie/mem/deck_memory.py', 'cflib/crazyflie/mem/loco_memory.py', 'cflib/crazyflie/mem/loco_memory_2.py',
@@ -780,6 +832,7 @@ def extract(ctx):
     extract_yaml(g)
     extract_state(g)
     extract_helper(g)
+    extract_lifecycle(g)
     return {'C14.lean': g.render()}
 
 
@@ -1328,7 +1381,6 @@ def real_deck_info(mem, holder=None):
     h, mgr = _long_lived(holder, 'deck', make)
     h.mem = bytearray(mem)
     h.q.clear()
-    mgr.disconnect()
     ok, failed = [], []
     try:
         mgr.query_decks(ok.append, failed.append)
@@ -1411,7 +1463,6 @@ def real_loco(mem, holder=None):
     h, lm = _long_lived(holder, 'loco', make)
     h.mem = bytearray(mem)
     h.q.clear()
-    lm.disconnect()
     called = []
     try:
         lm.update(called.append)
@@ -1433,7 +1484,6 @@ def real_loco2(mem, holder=None):
     h, lm = _long_lived(holder, 'loco2', make)
     h.mem = bytearray(mem)
     h.q.clear()
-    lm._update_ids_finished_cb = lm._update_active_ids_finished_cb = lm._update_data_finished_cb = None     # = disconnect() + the one it forgets
     called = []
     try:
         lm.update_id_list(lambda m: called.append('ids'))
@@ -1865,8 +1915,9 @@ def real_hist(kind, steps):
         called = []
         unhex = lambda x: b'' if x == '-' else bytes.fromhex(x)
         try:
-            if w[0] in ('u', 'x'):
-                h.mem = bytearray(unhex(w[1]))
+            if w[0] in ('u', 'x', 'U'):
+                if w[0] != 'U':
+                    h.mem = bytearray(unhex(w[1]))
                 h.next_mems = [unhex(w[2])] if w[0] == 'x' else []
                 h.q.clear()
                 el.update(lambda m, c=called: c.append(1))
@@ -1882,10 +1933,25 @@ def real_hist(kind, steps):
                 r = len(h.q) - nreq
                 h.q.clear()
                 out.append(show(el, len(called)) + '|R=%d' % (r + len(called)))
+            elif w[0] == 's' and kind == 'i2c':
+                el.elements = {'version': int(w[1]), 'radio_channel': int(w[2]), 'radio_speed': int(w[3]),
+                               'pitch_trim': bits_f32(int(w[4])), 'roll_trim': bits_f32(int(w[5]))}
+                if w[6] != 'none':
+                    el.elements['radio_address'] = int(w[6])
+                out.append('s')
+            elif w[0] == 's':
+                names = _ow_names()
+                el.pins, el.vid, el.pid = int(w[1]), int(w[2]), int(w[3])
+                el.elements = {}
+                for e_ in ([] if w[4] == '-' else w[4].split('.')):
+                    k_, v_ = e_.split('=')
+                    el.elements[names[int(k_)]] = unhex(v_ or '-').decode('ISO-8859-1')
+                out.append('s')
             elif w[0] == 'w':
                 h.writes = []
-                el.write_data(lambda *a: None)
                 h.q.clear()
+                el.write_data(lambda *a: None)
+                h.run()                       # the image goes into the memory, write_done is delivered
                 out.append('w=' + hexs(h.writes[0][1]))
             elif w[0] == 'd':
                 el.disconnect()
@@ -2003,6 +2069,43 @@ def gen_hist(ctx, cases):
                           {'op': kind + '_hist', 'steps': [s[:40] for s in steps], 'changes': kinds}, (kind + '_hist', line)))
             for kk in kinds:
                 ctx.count('hist:%s:change:%s' % (kind, kk))
+    # an update that reads an invalid image of every kind, then write_data() of a correct content, then update() again:
+    # the second update must run and report the written content (the pending record of the first one is gone)
+    good = i2c_mem(rng, 1)
+    blank, zero = bytes([0xFF] * 32), bytes(32)
+    bad_tok, bad_ck, bad_pay, bad_ver, ver0 = bytearray(good), bytearray(good), bytearray(good), bytearray(good), bytearray(good)
+    bad_tok[2] ^= 0x40
+    bad_ck[20] ^= 1
+    bad_pay[9] ^= 0x10
+    bad_ver[4] = 7
+    ver0[4] = 0
+    for nm, inv in (('blank', blank), ('zero', zero), ('bad-token', bad_tok), ('bad-checksum', bad_ck), ('bad-payload', bad_pay),
+                    ('unknown-version', bad_ver), ('version-flip', ver0), ('short', bytes(good[:12])), ('empty', b'')):
+        for v in (0, 1):
+            st_ = ['u:' + hexs(inv), 's:%d:%d:%d:%d:%d:%s' % (v, rng.randrange(256), rng.randrange(256), rnd_f32(rng), rnd_f32(rng), rng.getrandbits(40)), 'w', 'U',
+                   'u:' + hexs(inv), 'U']
+            if nm in ('short', 'empty'):
+                st_ = ['u:' + hexs(good)] + st_         # the exception of the short read ends the history: put a good read first
+            line = 'i2c_hist ' + ','.join(st_)
+            cases.append(('i2c_hist', line, (lambda s=st_: real_hist('i2c', s)), canon_i2c_hist, {'op': 'i2c_hist', 'invalid-then-rewrite': nm, 'version': v},
+                          ('i2c_hist-rewrite', nm, v, line)))
+            ctx.count('hist:i2c:invalid-then-rewrite:' + nm)
+    okm = bytes(ow_image(0x0C, 0xBC, 1, [(1, b'Name'), (2, b'B')])) + bytes([0xFF] * 8)
+    hdr_bad, hcrc_bad, sect_bad, len_bad, magic_bad, unk_id = (bytearray(okm) for _ in range(6))
+    hdr_bad[3] ^= 1
+    hcrc_bad[7] ^= 0x80
+    sect_bad[12] ^= 4
+    len_bad[9] += 1
+    magic_bad[0] = 0xEA
+    unk_id[10] = 9
+    unk_id[8 + unk_id[9] + 2] = crc32(bytes(unk_id[8:10 + unk_id[9]])) & 0xFF
+    for nm, inv in (('blank', bytes([0xFF] * 40)), ('zero', bytes(40)), ('bad-header', hdr_bad), ('bad-header-crc', hcrc_bad), ('bad-section', sect_bad),
+                    ('bad-length', len_bad), ('bad-magic', magic_bad), ('unknown-element-id', unk_id), ('short', bytes(okm[:9]))):
+        els = rng.choice(['1=4e616d65.2=42', '2=5265763a43', '-', '3=00ff.1=41'])
+        st_ = ['u:' + hexs(inv), 's:%d:%d:%d:%s' % (rng.getrandbits(32), rng.randrange(256), rng.randrange(256), els), 'w', 'U', 'u:' + hexs(inv), 'U']
+        line = 'ow_hist ' + ','.join(st_)
+        cases.append(('ow_hist', line, (lambda s=st_: real_hist('ow', s)), None, {'op': 'ow_hist', 'invalid-then-rewrite': nm}, ('ow_hist-rewrite', nm, line)))
+        ctx.count('hist:ow:invalid-then-rewrite:' + nm)
 
 
 # ---- histories on the helper objects (LighthouseMemHelper, LighthouseConfigWriter) -------------------------------------
@@ -2483,6 +2586,7 @@ def search(ctx):
         for step in range(rng.choice([3, 4, 6])):
             h.mem = bytearray(mem)
             called = []
+            nreads = len(h.reads)
             try:
                 el.update(lambda m_, c=called: c.append(1))
                 h.run()
@@ -2490,11 +2594,16 @@ def search(ctx):
                 called = None
             trace.append(bytes(mem).hex())
             if not called:
+                if called is not None:      # no exception, yet the callback was not called
+                    if len(h.reads) == nreads:
+                        ctx.witness('i2c-update-ignored', 'update() on a long-lived EEPROM element is silently ignored (no read issued, callback never called) after '
+                                    'an earlier update() had completed: the pending record was not cleared', {'memories': trace}, got='valid=%s' % el.valid)
+                        break
+                    key = 'D141-i2c-unknown-version-wedges' if bytes(mem[0:4]) == b'0xBC' and len(mem) > 4 and mem[4] not in (0, 1) else 'i2c-update-never-completes'
+                    ctx.witness(key, 'update() of an EEPROM element never completes for this memory content: no result is reported and every later update() '
+                                'is ignored', {'memories': trace}, got='callback not called, pending=%s' % bool(el._update_finished_cb))
                 el.disconnect()
                 h.q.clear()
-                if el.valid and called is not None:
-                    ctx.witness('i2c-stale-validity', 'EEPROM element reports valid although the update of the current content did not complete',
-                                {'memories': trace}, got='valid=True')
             else:
                 ok, f = i2c_expect(mem)
                 if ok is None:
@@ -2518,6 +2627,7 @@ def search(ctx):
         for step in range(rng.choice([3, 4, 6])):
             h.mem = bytearray(mem)
             called = []
+            nreads_ow = len(h.reads)
             try:
                 ow.update(lambda m_, c=called: c.append(1))
                 h.run()
@@ -2526,6 +2636,11 @@ def search(ctx):
             trace.append(bytes(mem).hex())
             exp = ow_expect(mem)
             if not called:
+                if called is not None:
+                    key = 'ow-update-ignored' if len(h.reads) == nreads_ow else 'ow-update-never-completes'
+                    ctx.witness(key, 'update() on a long-lived 1-wire element does not complete although no exception was raised (after an earlier completed '
+                                'update(): the pending record was not cleared)', {'memories': trace}, got='valid=%s pending=%s' % (ow.valid, bool(ow._update_finished_cb)))
+                    break
                 ow.disconnect()
                 h.q.clear()
             elif exp is not None:
@@ -2603,3 +2718,81 @@ def search(ctx):
         want = 'ok S=1|g=%s|c=%s|m=%s|p=16.16' % (want_g, want_c, mem_sig(layout(pad_g, pad_c)))
         if canon_f32_fields(got) != canon_f32_fields(want):
             ctx.witness('lh-config-writer', 'LighthouseConfigWriter changed the caller dicts or did not complete', inp, got=got[:300], want=want[:300])
+
+    # an invalid read of every kind, then write_data() of a correct content, then update(): the image just written must be
+    # parsed and reported valid (the first update must not leave anything behind that blocks the second)
+    good = bytes(i2c_mem(rng, 1))
+    kinds = {'blank': bytes([0xFF] * 32), 'zero': bytes(32), 'bad-token': bytes([good[0] ^ 1]) + good[1:], 'bad-checksum': good[:20] + bytes([good[20] ^ 1]) + good[21:],
+             'bad-payload': good[:9] + bytes([good[9] ^ 0x10]) + good[10:], 'unknown-version': good[:4] + bytes([7]) + good[5:],
+             'version-flip': good[:4] + bytes([0]) + good[5:], 'valid': good}
+    for nm, inv in kinds.items():
+        for v in (0, 1):
+            h = FakeMemHandler(inv)
+            el = I2CElement(0, 0, 0x2000, h)
+            c1, c2 = [], []
+            el.update(lambda m_: c1.append(m_.valid))
+            h.run()
+            ch, sp, pt, rl, ad = rng.randrange(256), rng.randrange(256), rnd_f32(rng), rnd_f32(rng), rng.getrandbits(40)
+            el.elements = {'version': v, 'radio_channel': ch, 'radio_speed': sp, 'pitch_trim': bits_f32(pt), 'roll_trim': bits_f32(rl), 'radio_address': ad}
+            el.write_data(lambda *a: None)
+            h.run()
+            nreads = len(h.reads)
+            el.update(lambda m_: c2.append(m_.valid))
+            h.run()
+            d = el.elements
+            ok = c2 == [True] and (d['version'], d['radio_channel'], d['radio_speed'], qnan32(f32bits(d['pitch_trim'])), qnan32(f32bits(d['roll_trim']))) == (v, ch, sp, qnan32(pt), qnan32(rl)) \
+                and (v == 0 or d['radio_address'] == ad)
+            if not ok:
+                key = 'i2c-update-ignored' if (len(h.reads) == nreads and c1) else \
+                      ('D141-i2c-unknown-version-wedges' if nm == 'unknown-version' and not c1 else 'i2c-rewrite-not-parsed')
+                ctx.witness(key, 'EEPROM: update() on a %s image, then write_data() of a correct version-%d content, then update(): the written image is not reported valid' % (nm, v),
+                            {'first_memory': inv.hex(), 'written': {'version': v, 'channel': ch, 'speed': sp, 'pitch': pt, 'roll': rl, 'address': ad}},
+                            got='first callback=%r second callback=%r reads issued by second update=%d valid=%s' % (c1, c2, len(h.reads) - nreads, el.valid))
+    okm = bytes(ow_image(0x0C, 0xBC, 1, [(1, b'Name'), (2, b'B')])) + bytes([0xFF] * 8)
+    okinds = {'blank': bytes([0xFF] * 40), 'zero': bytes(40), 'bad-header': okm[:3] + bytes([okm[3] ^ 1]) + okm[4:], 'bad-header-crc': okm[:7] + bytes([okm[7] ^ 0x80]) + okm[8:],
+              'bad-section': okm[:12] + bytes([okm[12] ^ 4]) + okm[13:], 'bad-magic': bytes([0xEA]) + okm[1:], 'valid': okm}
+    names = _ow_names()
+    for nm, inv in okinds.items():
+        h = FakeMemHandler(inv)
+        ow = OWElement(1, 1, 112, 0, h)
+        c1, c2 = [], []
+        ow.update(lambda m_: c1.append(m_.valid))
+        h.run()
+        ow.pins, ow.vid, ow.pid = rng.getrandbits(32), rng.randrange(256), rng.randrange(256)
+        want_el = rng.choice([{1: b'Nm', 2: b'C'}, {2: b'Rev'}, {}, {3: bytes([0, 255])}])
+        ow.elements = {names[k]: v_.decode('ISO-8859-1') for k, v_ in want_el.items()}
+        want_id = (ow.pins, ow.vid, ow.pid)
+        ow.write_data(lambda *a: None)
+        h.run()
+        nreads = len(h.reads)
+        ow.update(lambda m_: c2.append(m_.valid))
+        h.run()
+        got_el = {rev[k]: v_.encode('ISO-8859-1') for k, v_ in ow.elements.items()}
+        if not (c2 == [True] and got_el == want_el and (ow.pins, ow.vid, ow.pid) == want_id):
+            key = 'ow-update-ignored' if (len(h.reads) == nreads and c1) else 'ow-rewrite-not-parsed'
+            ctx.witness(key, '1-wire: update() on a %s image, then write_data() of a correct content, then update(): the written image is not reported valid' % nm,
+                        {'first_memory': inv.hex(), 'written': {'pins': want_id[0], 'vid': want_id[1], 'pid': want_id[2], 'elements': {k: v_.hex() for k, v_ in want_el.items()}}},
+                        got='first callback=%r second callback=%r reads issued by second update=%d elements=%r' % (c1, c2, len(h.reads) - nreads, got_el))
+    # LocoMemory / LocoMemory2 / DeckMemoryManager: three reads in a row on ONE object, each must run and call its callback
+    holder = {}
+    for step in range(3):
+        k_ = rng.choice([0, 1, 3])
+        mem = bytearray(0x1000 + 0x100 * max(k_, 1))
+        mem[0] = k_
+        for i in range(k_):
+            mem[0x1000 + 0x100 * i:0x1000 + 0x100 * i + 13] = anchor_bytes(rng)
+        got = real_loco(bytes(mem), holder)
+        if not got.startswith('ok n=%d ' % k_):
+            ctx.witness('loco-update-ignored', 'LocoMemory.update() number %d on one object does not run / complete' % (step + 1), {'memory_head': bytes(mem[:4]).hex(), 'anchors': k_}, got=got[:200])
+        mem = bytearray(0x2000 + 0x100 * 32)
+        mem[0:17] = bytes([k_] + list(range(16)))
+        mem[0x1000:0x1011] = bytes([2] + list(range(16)))
+        for i in range(32):
+            mem[0x2000 + 0x100 * i:0x2000 + 0x100 * i + 13] = anchor_bytes(rng)
+        got = real_loco2(bytes(mem), holder)
+        if not got.startswith('ok ids='):
+            ctx.witness('loco2-update-ignored', 'LocoMemory2 update number %d on one object does not run / complete' % (step + 1), {'anchors': k_}, got=got[:200])
+        ver = [2, 3, 3][step]
+        got = real_deck_info(bytes([ver]) + b''.join(deck_record(rng, 'ascii') for _ in range(8)), holder)
+        if not got.startswith('ok unsupported' if ver != 3 else 'ok decks'):
+            ctx.witness('deck-query-ignored', 'DeckMemoryManager.query_decks() number %d on one object does not run / complete' % (step + 1), {'version': ver}, got=got[:200])
